@@ -29,10 +29,11 @@ R_WHYS = {"outcome", "preview-changed", "failure-changed", "converge", "remove-e
 CONSTS = {"Names": '{"a","b"}', "MaxRepos": 3, "MaxHead": 2, "Foreign": "TRUE"}
 
 
-def defines(depth, emit):
+def defines(depth, emit, mod=1):
     d = dict(CONSTS)
     d["MaxDepth"] = depth
     d["Emit"] = '"%s"' % emit
+    d["EmitMod"] = mod
     return d
 
 
@@ -196,6 +197,7 @@ class Findings:
         self.ctx, self.pid = ctx, pid
         self.by_sig = {}
         self.other = {}
+        self.unparsed = None
 
     def add(self, sig, detail, hist_len):
         cur = self.by_sig.get(sig)
@@ -225,8 +227,8 @@ def judge(ctx, pid, name, events, rejected, scripts_by_id, findings):
                 first_rej = (i, e, rej_by_line[i + 1])
                 break
         for i, e in h["events"]:
-            if e["ev"] == "cmd" and e["unparsed"]:
-                raise vk.Inconclusive("%s: output line(s) the driver does not understand: %r" % (name, e["unparsed"][:3]))
+            if e["ev"] == "cmd" and e["unparsed"] and not findings.unparsed:
+                findings.unparsed = "%s: output line(s) the driver does not understand: %r" % (name, e["unparsed"][:3])
         # R: predictions of the state machine
         sc = scripts_by_id.get(h["id"]) if scripts_by_id else None
         r_first = None
@@ -306,9 +308,9 @@ def count_nontrivial(pid, events):
 # --------------------------------------------------------------------------- main
 def run(ctx, pid):
     emit_depth = ctx.pick(3, 4)
-    n_scripts = ctx.pick(56, 700)
-    n_random = ctx.pick(10, 240)
-    workers = 4
+    n_scripts = ctx.pick(56, 300)
+    n_random = ctx.pick(10, 80)
+    workers = ctx.pick(4, 6)
 
     with concurrent.futures.ThreadPoolExecutor(max_workers=4) as ex:
         f_bin = ex.submit(ctx.go_build_test, PKG, FILES)
@@ -317,7 +319,7 @@ def run(ctx, pid):
                          defines=defines(ctx.pick(4, 5), "none"))
         # R: one script per explored (state, command)
         f_emit = ex.submit(ctx.tlc, "LocalSync", "LocalSync_emit.cfg", name="tlc_emit", timeout=1800, workers=4, count=False,
-                           defines=defines(emit_depth, pid))
+                           defines=defines(emit_depth, pid, ctx.pick(1, 7)))
         # design-level statement of the named deviation (finding C33-F1); informative only
         f_strict = ex.submit(ctx.tlc, "LocalSync", "LocalSync_strict.cfg", name="tlc_strict", timeout=900, workers=2,
                              count=False, defines=defines(3, "none")) if pid == "C33" else None
@@ -376,6 +378,8 @@ def run(ctx, pid):
             if hs:
                 ctx.sample({"random_history": [brief(e) for _, e in hs[0]["events"]][:10]})
     findings.flush()
+    if findings.unparsed and not ctx.violations and not ctx.known_hits:
+        raise vk.Inconclusive(findings.unparsed)
     if findings.other:
         ctx.notes.append("rejections that belong to the sibling property (not counted here): %s" % json.dumps(findings.other))
     need = ["stale-same-head", "fail:dup-name", "fail:dup-src", "prune", "reindex", "root3", "kind:self", "kind:bare", "kind:nest"]
